@@ -11,12 +11,20 @@ EXTENDS AES, Json, IOUtils, TLC
 A == INSTANCE Adapter WITH BLK <- 16, CM <- 256, E <- EncBlockRK, D <- DecBlockRK, ADAPTER_STRIPS <- FALSE, STATEFUL_IV <- FALSE
 Trace == ndJsonDeserialize(IOEnv.TRACE_FILE)
 VARIABLE i
+\* long inputs (the multi-thread histories use 200..2000 bytes): the same functions written as folds in AES.tla (linear in TLC;
+\* MC_AESVectors / MC_AESModesVectors compare the formulations on the NIST vectors)
+IvOf(iv) == IF iv = <<>> THEN Zero16 ELSE iv
+Want(fn, key, iv, d) ==
+    IF Len(d) <= 64 THEN A!Pure(fn, RoundKeys(key), iv, d)
+    ELSE IF fn = "encrypt" THEN CbcEnc(key, IvOf(iv), ZeroPad(d))
+    ELSE IF fn = "decrypt" THEN CbcDec(key, IvOf(iv), d)
+    ELSE CbcMac(key, IvOf(iv), d)
 ArgsOk(ev) == Len(ev.key) = 16 /\ Len(ev.iv) \in {0, 16} /\ Len(ev.data) >= 1
 Verdict(ev) ==
     IF ev.op = "ad.call" THEN
         IF ~ArgsOk(ev) \/ ev.fn \notin {"encrypt", "decrypt", "mac"} \/ (ev.fn = "decrypt" /\ Len(ev.data) % 16 # 0) THEN "bad-event"
         ELSE IF ev.err # 0 THEN "adapter-raised"
-        ELSE LET want == A!Pure(ev.fn, RoundKeys(ev.key), ev.iv, ev.data) IN
+        ELSE LET want == Want(ev.fn, ev.key, ev.iv, ev.data) IN
              IF ev.out = want THEN (IF ev.alias # 0 THEN "result-object-shared-between-calls" ELSE "ok")
              ELSE IF ev.fn = "decrypt" /\ ev.out = A!StripZeros(want, Len(want)) THEN "decrypt-strips-trailing-zeros"
              ELSE "adapter-" \o ev.fn \o "-differs-from-pure-function"
